@@ -298,7 +298,7 @@ func c11(r *lp.Run) {
 		}
 	}
 	// deep nesting
-	for _, depth := range []int{100, 1000} {
+	for _, depth := range []int{100, 400} {
 		s := `{"openapi":"3.0.3","info":{"title":"t","version":"1"},"paths":{},"components":{"schemas":{"D":` + strings.Repeat(`{"type":"array","items":`, depth) + `{"type":"string"}` + strings.Repeat("}", depth) + `}}}`
 		c11Judge(r, []byte(s), fmt.Sprintf("array schema nested %d deep", depth))
 	}
